@@ -392,6 +392,75 @@ Section Facts.
       + apply IH; [apply step_inv; assumption | exact A | exact Hns].
   Qed.
 
+  (* ---- a result that is in the pack in every view stays available from the pack -------- *)
+  Variable covers : cid -> name -> bool.
+
+  Lemma fresh_step : forall s op d, makes_dir op d = false ->
+    fresh_dir (step s op) d = true -> fresh_dir s d = true.
+  Proof.
+    intros s op d Hm H. destruct op as [m j|m j|j c|j|j|e|src dst|m rm|e]; simpl in *; try exact H.
+    - destruct (vol s m); simpl in H; exact H.
+    - destruct (Pos.eqb e d); [discriminate | exact H].
+    - destruct (vol s src); [destruct (fin dst)|]; simpl in H; exact H.
+    - rewrite Hm in H. exact H.
+  Qed.
+
+  Lemma covers_same_inodes : forall s s' n b, (forall i, b = Some i -> inodes s' i = inodes s i) ->
+    pack_view_covers covers s' n b = pack_view_covers covers s n b.
+  Proof. intros s s' n [i|] H; simpl; [rewrite (H i eq_refl); reflexivity | reflexivity]. Qed.
+
+  Lemma covered_step : forall s op pk n, inv s -> guard s op = true -> fin pk = true ->
+    touches op pk = false -> makes_dir op (fst pk) = false ->
+    covered covers s pk n = true -> covered covers (step s op) pk n = true.
+  Proof.
+    intros s op pk n I G Hf Ht Hm C.
+    destruct (frame_step s op pk I G Hf Ht) as [Ev Ed].
+    unfold covered in *. rewrite forallb_forall in C. apply forallb_forall. intros b Hb.
+    assert (Hold : In b (vol s pk :: pl_bindings s pk)).
+    { destruct Hb as [Hb|Hb].
+      - left. rewrite <- Ev. exact Hb.
+      - right. unfold pl_bindings in *. apply in_app_or in Hb. apply in_or_app. destruct Hb as [Hb|Hb].
+        + left. destruct (fresh_dir (step s op) (fst pk)) eqn:Ef; [|destruct Hb].
+          rewrite (fresh_step s op (fst pk) Hm Ef). exact Hb.
+        + right. apply Ed. exact Hb. }
+    rewrite <- (C b Hold). apply covers_same_inodes. intros i Hi. subst b.
+    apply pub_stable_step; [exact I | exact G |].
+    destruct Hold as [Hv|Hp].
+    - apply (inv_vol s pk i I Hf Hv).
+    - unfold pl_bindings in Hp. apply in_app_or in Hp. destruct Hp as [Hp|Hp].
+      + destruct (fresh_dir s (fst pk)); [destruct Hp as [Hp|[]]; discriminate | destruct Hp].
+      + apply (inv_dur s I pk i Hf Hp).
+  Qed.
+
+  Lemma covered_run : forall p s pk n, inv s -> accepts s p = true -> fin pk = true ->
+    forallb (fun op => negb (touches op pk) && negb (makes_dir op (fst pk))) p = true ->
+    covered covers s pk n = true -> covered covers (run s p) pk n = true.
+  Proof.
+    induction p as [|op r IH]; intros s pk n I A Hf Hall C; simpl in *; [exact C|].
+    apply andb_true_iff in A. destruct A as [G A]. apply andb_true_iff in Hall. destruct Hall as [H1 Hall].
+    apply andb_true_iff in H1. destruct H1 as [Ht Hm]. apply negb_true_iff in Ht. apply negb_true_iff in Hm.
+    apply IH; [apply step_inv; assumption | exact A | exact Hf | exact Hall |].
+    apply covered_step; assumption.
+  Qed.
+
+  Lemma covered_views : forall s pk n, covered covers s pk n = true ->
+    (exists c, kill_view s pk = Some (Cid c) /\ covers c n = true) /\
+    (forall img, pl_image s img -> exists c, img pk = Some (Cid c) /\ covers c n = true).
+  Proof.
+    intros s pk n C. unfold covered in C. rewrite forallb_forall in C. split.
+    - pose proof (C (vol s pk) (or_introl eq_refl)) as H. unfold kill_view.
+      destruct (vol s pk) as [i|]; simpl in H; [|discriminate].
+      destruct (i_data (inodes s i)) as [c|]; [|discriminate].
+      destruct (i_synced (inodes s i)) as [c'|]; [|discriminate].
+      apply andb_true_iff in H. destruct H as [H _]. exists c. auto.
+    - intros img Himg. specialize (Himg pk). unfold pl_outcomes in Himg. apply in_map_iff in Himg.
+      destruct Himg as [b [Eb Hb]]. pose proof (C b (or_intror Hb)) as H.
+      destruct b as [i|]; simpl in H; [|discriminate].
+      destruct (i_data (inodes s i)) as [c|]; [|discriminate].
+      destruct (i_synced (inodes s i)) as [c'|] eqn:Es; [|discriminate].
+      apply andb_true_iff in H. destruct H as [_ H]. exists c'. split; [symmetry; exact Eb | exact H].
+  Qed.
+
   (* ---- the same facts for a history [h] from the empty jugdir followed by a write [w] -- *)
 
   Lemma hist_split : forall h w, write_protocol fin complete (h ++ w) = true ->
@@ -449,6 +518,19 @@ Section Facts.
     destruct (origin_step _ op n i G Hf Hv) as [H|[src [E H]]]; [contradiction|].
     exists src. subst op. simpl in G. apply andb_true_iff in G. destruct G as [G1 G2].
     apply negb_true_iff in G1. rewrite H, Hf in G2. auto.
+  Qed.
+
+  (* once the key of n is in the pack pk in every view (which the harness lets Coq evaluate at each
+     unlink of update_pack), whatever the writer does next - the unlink of n itself included - short of
+     replacing the pack keeps the value available from the pack in every post-crash view *)
+  Theorem wp_packed_stays_available : forall h w pk n, write_protocol fin complete (h ++ w) = true ->
+    fin pk = true -> covered covers (run empty_fs h) pk n = true ->
+    forallb (fun op => negb (touches op pk) && negb (makes_dir op (fst pk))) w = true ->
+    (exists c, kill_view (run (run empty_fs h) w) pk = Some (Cid c) /\ covers c n = true) /\
+    (forall img, pl_image (run (run empty_fs h) w) img -> exists c, img pk = Some (Cid c) /\ covers c n = true).
+  Proof.
+    intros h w pk n A Hf C Hall. destruct (hist_split h w A) as [I Aw].
+    apply covered_views. apply covered_run; assumption.
   Qed.
 
   Theorem wp_all_prefixes_ok : forall tr ns, write_protocol fin complete tr = true ->
